@@ -1,0 +1,97 @@
+//go:build verif
+
+// Contracts for the verif build tag: comment-only, read by /verif/engine (govc).
+package cache
+
+//@ # ---- C13: negative-failure backoff envelope
+//@ pred fcInv(c *FailureCache) := c != nil && 1000000000 <= c.initialTTL && c.initialTTL <= c.maxTTL && c.maxTTL <= 300000000000
+//@ recspec bk(init time.Duration, max time.Duration, s int) time.Duration := ite(s <= 1, init, ite(bk(init, max, s-1) >= max, bk(init, max, s-1), ite(bk(init, max, s-1) > max/2, max, 2*bk(init, max, s-1))))
+//@
+//@ lemma bk_sticky_base (init time.Duration, max time.Duration, g int): bk(init, max, g) >= max ==> bk(init, max, g) == bk(init, max, g)
+//@ lemma bk_sticky_step (init time.Duration, max time.Duration, g int, s int): (1 <= g && g <= s && bk(init, max, g) >= max ==> bk(init, max, s) == bk(init, max, g)) ==> (1 <= g && g <= s+1 && bk(init, max, g) >= max ==> bk(init, max, s+1) == bk(init, max, g))
+//@ axiom bk_sticky (init time.Duration, max time.Duration, g int, s int): {bk(init, max, g), bk(init, max, s)} 1 <= g && g <= s && bk(init, max, g) >= max ==> bk(init, max, s) == bk(init, max, g)
+//@ lemma bk_bounds_step (init time.Duration, max time.Duration, s int): 0 < init && init <= max && (init <= bk(init, max, s) && bk(init, max, s) <= max) ==> (init <= bk(init, max, s+1) && bk(init, max, s+1) <= max && bk(init, max, s+1) <= 2*bk(init, max, s) && bk(init, max, s) <= bk(init, max, s+1))
+//@ lemma bk_bounds_base (init time.Duration, max time.Duration, s int): 0 < init && init <= max && s <= 1 ==> init <= bk(init, max, s) && bk(init, max, s) <= max
+//@
+//@ func (*FailureCache).backoff
+//@   requires fcInv(c)
+//@   uses bk_sticky
+//@   modifies nothing
+//@   ensures result == bk(c.initialTTL, c.maxTTL, int(streak))
+//@   ensures c.initialTTL <= result && result <= c.maxTTL
+//@   loop 1 invariant 1 <= generation && (generation <= streak || generation == 1)
+//@   loop 1 invariant ttl == bk(c.initialTTL, c.maxTTL, int(generation))
+//@   loop 1 invariant c.initialTTL <= ttl && ttl <= c.maxTTL
+//@   loop 1 decreases int(streak) - int(generation)
+//@
+//@ # ---- C03: every hit is verified against the full key preimage, whatever the 64-bit table returns
+//@ spec foldc(c uint8) uint8 := ite(c >= 'A' && c <= 'Z', c + 32, c)
+//@ pred eqFold(a string, b string) := len(a) == len(b) && forall i int :: {a[i]} {b[i]} 0 <= i && i < len(a) ==> foldc(a[i]) == foldc(b[i])
+//@ spec normScope(p netip.Prefix) netip.Prefix := ite(!prefixValid(p) || prefixBits(p) == 0, netip.Prefix{}, prefixMasked(p))
+//@ pred matchesPre(entry *CacheEntry, qtype uint16, qclass uint16, cd bool, scope netip.Prefix) := entry != nil && entry.question.Name != "" && entry.question.Qtype == qtype && entry.question.Qclass == qclass && entry.cd == cd && entry.scope == normScope(scope)
+//@
+//@ func equalNameASCIIFold
+//@   modifies nothing
+//@   ensures result ==> eqFold(a, b)
+//@   ensures eqFold(a, b) ==> result
+//@   loop 1 invariant 0 <= i && i <= len(a) && len(a) == len(b)
+//@   loop 1 invariant forall k int :: {a[k]} {b[k]} 0 <= k && k < i ==> foldc(a[k]) == foldc(b[k])
+//@   loop 1 decreases len(a) - i
+//@
+//@ func normalizeKeyScope
+//@   modifies nothing
+//@   ensures result == normScope(scope)
+//@
+//@ func entryMatchesPreimage
+//@   modifies nothing
+//@   ensures result == matchesPre(entry, qtype, qclass, cd, scope)
+//@
+//@ func entryMatchesKey
+//@   modifies nothing
+//@   ensures result ==> matchesPre(entry, want.Question.Qtype, want.Question.Qclass, want.CD, want.Scope) && eqFold(entry.question.Name, want.Question.Name)
+//@   ensures matchesPre(entry, want.Question.Qtype, want.Question.Qclass, want.CD, want.Scope) && eqFold(entry.question.Name, want.Question.Name) ==> result
+//@
+//@ # the table lookup (LookupByKey) has no contract: it may return ANY entry (hash collision included)
+//@ func (*Store).LookupByKeyVerified
+//@   requires storeWF(s)
+//@   modifies pkgheap("internal/cache")
+//@   ensures result1 ==> matchesPre(result0, want.Question.Qtype, want.Question.Qclass, want.CD, want.Scope) && eqFold(result0.question.Name, want.Question.Name)
+//@   ensures !result1 ==> result0 == nil
+//@
+//@ func (*Store).Lookup
+//@   requires req != nil && storeWF(s)
+//@   modifies pkgheap("internal/cache")
+//@   ensures result1 ==> len(req.Question) > 0 && matchesPre(result0, req.Question[0].Qtype, req.Question[0].Qclass, req.CheckingDisabled, netip.Prefix{}) && eqFold(result0.question.Name, req.Question[0].Name)
+//@
+//@ func (CacheKey).Hash
+//@   modifies nothing
+//@
+//@ func (*CacheEntry).IsExpired
+//@   requires entryWF(e)
+//@   modifies nothing
+//@ func (*PositiveCache).Get
+//@   assume at after call (*internal/cache.Cache).Get#1: result1 ==> dyntype(result0, *CacheEntry) && entryWF(as(result0, *CacheEntry))
+//@   requires pc != nil && pc.cache != nil
+//@   modifies pkgheap("internal/cache")
+//@ func (*NegativeCache).Get
+//@   assume at after call (*internal/cache.Cache).Get#1: result1 ==> dyntype(result0, *CacheEntry) && entryWF(as(result0, *CacheEntry))
+//@   requires nc != nil && nc.cache != nil
+//@   modifies pkgheap("internal/cache")
+//@ func (*Store).LookupByKey
+//@   requires storeWF(s)
+//@   modifies pkgheap("internal/cache")
+//@ pred storeWF(s *Store) := s != nil && s.positive != nil && s.negative != nil && s.positive.cache != nil && s.negative.cache != nil
+//@
+//@ # ---- C04: remaining lifetime = min(ttl - elapsed, cut - now); never grows with time
+//@ pred entryWF(e *CacheEntry) := e != nil && 0 <= e.ttl && e.ttl <= 4294967296000000000 && real(e.stored) && (tzero(e.cutUntil) || real(e.cutUntil))
+//@ spec remSpec(e *CacheEntry, now time.Time) time.Duration := ite(!tzero(e.cutUntil) && inst(e.cutUntil) - inst(now) < e.ttl - (inst(now) - inst(e.stored)), inst(e.cutUntil) - inst(now), e.ttl - (inst(now) - inst(e.stored)))
+//@
+//@ func (*CacheEntry).remaining
+//@   requires entryWF(e) && real(now)
+//@   modifies nothing
+//@   ensures result == remSpec(e, now)
+//@   ensures result <= e.ttl - (inst(now) - inst(e.stored))
+//@   ensures !tzero(e.cutUntil) ==> result <= inst(e.cutUntil) - inst(now)
+//@
+//@ # monotonicity: the remaining lifetime of a stored entry never grows between two reads
+//@ lemma remaining_monotone (e *CacheEntry, n1 time.Time, n2 time.Time): inst(n1) <= inst(n2) ==> remSpec(e, n2) <= remSpec(e, n1)
